@@ -174,7 +174,10 @@ func encodeData(types []abiType, vals []Val) []byte {
 
 func pow2(k int) *big.Int { return new(big.Int).Lsh(big.NewInt(1), uint(k)) }
 
-// integer patterns {0,1,-1,min,max,2^k,2^k-1,random} of the given width
+// integer patterns of the given width: 0, 1, -1, min, max; the neighbourhood of
+// EVERY power of two up to the width (2^k, 2^k +-1, 2^k +- 2^j, either sign);
+// the machine-word boundaries 2^31, 2^32, 2^63, 2^64 (+-1, +-small, and uniformly
+// random magnitudes inside [2^31,2^32) and [2^63,2^64)); uniformly random values
 func genInt(r *lib.RNG, signed bool, bits int) *big.Int {
 	max := new(big.Int).Sub(pow2(bits), big.NewInt(1))
 	min := big.NewInt(0)
@@ -182,52 +185,110 @@ func genInt(r *lib.RNG, signed bool, bits int) *big.Int {
 		max = new(big.Int).Sub(pow2(bits-1), big.NewInt(1))
 		min = new(big.Int).Neg(pow2(bits - 1))
 	}
-	var n *big.Int
-	switch r.Intn(9) {
-	case 0:
-		n = big.NewInt(0)
-	case 1:
-		n = big.NewInt(1)
-	case 2:
-		if signed {
-			n = big.NewInt(-1)
-		} else {
-			n = new(big.Int).Set(max)
-		}
-	case 3:
-		n = new(big.Int).Set(min)
-	case 4:
-		n = new(big.Int).Set(max)
-	case 5:
-		hi := bits
-		if signed {
-			hi = bits - 1
-		}
-		n = pow2(r.Intn(hi))
-		if signed && r.Bool() {
-			n.Neg(n)
-		}
-	case 6:
-		hi := bits
-		if signed {
-			hi = bits - 1
-		}
-		n = new(big.Int).Sub(pow2(r.Range(1, hi)), big.NewInt(1))
-		if signed && r.Bool() {
-			n.Neg(n)
-			n.Sub(n, big.NewInt(1)) // -(2^k)
-		}
-	default:
-		n = new(big.Int).SetBytes(r.Bytes((bits + 7) / 8))
+	random := func() *big.Int {
+		n := new(big.Int).SetBytes(r.Bytes((bits + 7) / 8))
 		n.Mod(n, pow2(bits))
 		if signed {
 			n.Sub(n, pow2(bits-1))
 		}
+		return n
+	}
+	sign := func(n *big.Int) *big.Int {
+		if signed && r.Bool() {
+			return n.Neg(n)
+		}
+		return n
+	}
+	small := func() *big.Int { return big.NewInt(int64(r.Intn(300))) }
+	// a power of two not above the width's magnitude range
+	top := bits
+	if signed {
+		top = bits - 1
+	}
+	var n *big.Int
+	switch r.Intn(16) {
+	case 0:
+		n = big.NewInt(0)
+	case 1:
+		n = sign(big.NewInt(1))
+	case 2:
+		n = new(big.Int).Set(min)
+	case 3:
+		n = new(big.Int).Set(max)
+	case 4: // next to the extremes
+		if r.Bool() {
+			n = new(big.Int).Add(min, small())
+		} else {
+			n = new(big.Int).Sub(max, small())
+		}
+	case 5, 6, 7, 8: // the neighbourhood of a power of two
+		k := r.Intn(top + 1)
+		n = pow2(k)
+		switch r.Intn(6) {
+		case 0:
+		case 1:
+			n.Sub(n, big.NewInt(1))
+		case 2:
+			n.Add(n, big.NewInt(1))
+		case 3:
+			if k > 0 {
+				n.Add(n, pow2(r.Intn(k)))
+			}
+		case 4:
+			if k > 0 {
+				n.Sub(n, pow2(r.Intn(k)))
+			}
+		default:
+			n.Add(n, small())
+		}
+		n = sign(n)
+	case 9, 10, 11, 12: // machine-word boundaries
+		var ws []int
+		for _, w := range []int{31, 32, 63, 64} {
+			if w <= top {
+				ws = append(ws, w)
+			}
+		}
+		if len(ws) == 0 {
+			n = random()
+			break
+		}
+		w := ws[len(ws)-1-r.Intn(min2(len(ws), 2))] // mostly the two largest that fit
+		if r.Chance(1, 4) {
+			w = lib.Pick(r, ws)
+		}
+		n = pow2(w)
+		switch r.Intn(6) {
+		case 0:
+		case 1:
+			n.Sub(n, big.NewInt(1))
+		case 2:
+			n.Add(n, big.NewInt(1))
+		case 3:
+			n.Sub(n, small())
+		case 4:
+			n.Add(n, small())
+		default: // uniformly inside [2^(w-1), 2^w)
+			lo := pow2(w - 1)
+			off := new(big.Int).SetBytes(r.Bytes(w/8 + 1))
+			off.Mod(off, lo)
+			n = lo.Add(lo, off)
+		}
+		n = sign(n)
+	default:
+		n = random()
 	}
 	if n.Cmp(min) < 0 || n.Cmp(max) > 0 {
-		n = new(big.Int).Set(max)
+		n = random()
 	}
 	return n
+}
+
+func min2(a, b int) int {
+	if a < b {
+		return a
+	}
+	return b
 }
 
 func genScalar(r *lib.RNG, t abiType) Val {
